@@ -186,7 +186,8 @@ def gauss(ctx):
 def run(ctx):
     ev1 = triangle(ctx)
     ev2 = gauss(ctx)
-    ev3 = duffy.check(ctx, max_degree=6 if ctx.thorough else 3)
+    ev3 = duffy.check(ctx, max_degree=8 if ctx.thorough else 4)
+    duffy.remaps(ctx)
     ctx.extra["evaluations"] = ev1 + ev2 + ev3
     ctx.extra["exhaustive"] = True
 
